@@ -16,6 +16,11 @@ def run(ctx, res):
     P = ctx.P
     PI.valstack_writers(P, res)
     reach, inv = PI.run(ctx, res, LAYERS, floor_fns=575, floor_sites=370)
+    # FRAME-COVER (shared with C10): `:abort`, eval-up-to and the test runner leave the session through pop_to_toplevel; a
+    # pending entry or value that survives it is re-entered by the next `:resume` / `:skip` with its operands gone, and the
+    # eval thread panics on an empty value stack
+    from . import c10 as _c10
+    _c10.frame_cover(P, res)
     f = P.require_fn("json_session::handle_request_in_worker")
     # ---- RESPONSE-ONCE: count print_as_json events on every path entry -> return
     ev = {}
